@@ -1,4 +1,5 @@
 import Cppcms.C08.Lemmas
+import Cppcms.C08.BuddyLemmas
 /-!
 # C08 — property theorems
 
@@ -8,8 +9,9 @@ Same concrete model as C07 (`Cppcms.C07.Model`, conditions regenerated from
 `src/cache_storage.cpp`).  Statements hold for every history, every limit, both back-ends and
 every allocation outcome (`StoreEnv`), also under memory pressure (`lowMem`).
 
-The buddy allocator (memory release of the process-shared variant) is *not* modelled here;
-see `design.d/C08.md`.
+The last section is about the buddy allocator behind the process-shared variant (model
+`Buddy.lean`: forest of binary trees over the constructor's chunks; the allocator's *choice* of
+block is an oracle, see there).
 -/
 namespace Cppcms.C08.Props
 open Cppcms Cppcms.C07 Cppcms.C08
@@ -176,5 +178,47 @@ example : victim (reach 2 none (h₃.take 3)) 1002 = some ka ∧ victim (reach 2
 example : (reach 0 (some 100) [.store 1000 ka [1] [] 1100, .store 1000 kb [2] [] 1100 none { lowMem := [true] }]).lru = [kb] := by
   decide
 example : touched (reach 2 none (h₂.take 2)) (.fetch 1000 ka) = [ka] := by decide
+
+/-! ## buddy allocator: memory of freed blocks is released
+
+`Buddy.Arena` = the chunks the constructor creates, each a binary tree of blocks; `allocAt k off`
+marks the block of order `k` at `off` used (splitting), `freeAt off` frees and coalesces.
+`Normal` = no two free buddies side by side (all possible coalescing done). -/
+
+open Buddy in
+theorem buddy_init_normal (usable : Nat) : (init usable).Normal := init_normal usable
+
+open Buddy in
+/-- `Inv_buddy` (coalesced normal form) is preserved by every malloc and free, whichever block is chosen -/
+theorem buddy_step_normal {a a' : Arena} {op : BOp} (h : a.step op = some a') (hn : a.Normal) : a'.Normal :=
+  (Arena.step_spec h).2 hn
+
+open Buddy in
+/-- the blocks in use are exactly those allocated and not yet freed: malloc adds its block … -/
+theorem buddy_used_after_alloc {a a' : Arena} {k off : Nat} (h : a.allocAt k off = some a') :
+    a'.usedBlocks.Perm ((off, k) :: a.usedBlocks) := (Arena.allocAt_spec h).2.2
+
+open Buddy in
+/-- … and free removes exactly the freed one -/
+theorem buddy_used_after_free {a a' : Arena} {off k : Nat} (h : a.freeAt off = some (a', k)) :
+    a.usedBlocks.Perm ((off, k) :: a'.usedBlocks) := (Arena.freeAt_spec h).2.2
+
+open Buddy in
+/-- **fill, empty, refill indefinitely**: after any sequence of mallocs and frees, if no block is in
+use any more the arena is exactly the freshly constructed one (every chunk one free block again) -/
+theorem free_all_restores (usable : Nat) (ops : List BOp) (a : Arena)
+    (hrun : (init usable).run ops = some a) (hnone : a.usedBlocks = []) : a = init usable := by
+  obtain ⟨hs, hn⟩ := Arena.run_spec hrun
+  exact Arena.eq_of_skeleton_allFree hs (Arena.allFree_of_noUsed (hn (init_normal usable)) hnone)
+    (initChunks_allFree 64 0 usable)
+
+-- non-vacuity: 1000 usable bytes = chunks of 512, 256, 128, 64, 32; two blocks allocated in the 512 chunk and freed in the other order
+example : (Buddy.init 1000).skeleton = [(9, 0), (8, 512), (7, 768), (6, 896), (5, 960)] := by decide
+example :
+    let ops := [Buddy.BOp.alloc 6 0, .alloc 7 128, .alloc 5 64, .free 0, .free 128, .free 64]
+    ((Buddy.init 1000).run ops).map (·.usedBlocks) = some [] ∧
+    ((Buddy.init 1000).run (ops.take 4)).map (·.freeBlocks) =
+      some [(0, 6), (96, 5), (256, 8), (512, 8), (768, 7), (896, 6), (960, 5)] := by decide
+example : Buddy.orderOf 1 = 5 ∧ Buddy.orderOf 16 = 5 ∧ Buddy.orderOf 17 = 6 ∧ Buddy.orderOf 2001 = 11 := by decide
 
 end Cppcms.C08.Props
